@@ -2,7 +2,7 @@
 //! The live segment is filled so that its free space lies between the writer's size ESTIMATE for the next
 //! event (uncompressed) and the size that is actually STORED (zstd output of random bytes + 4-byte length
 //! prefix is larger than the input). usage: c19 [payload_len]
-use sierradb::bucket::segment::{EVENT_HEADER_SIZE, SEGMENT_HEADER_SIZE};
+use sierradb::bucket::segment::{COMMIT_SIZE, EVENT_HEADER_SIZE, SEGMENT_HEADER_SIZE};
 use sierradb::database::{DatabaseBuilder, NewEvent, Transaction};
 use sierradb::id::{uuid_to_partition_hash, uuid_v7_with_partition_hash};
 use sierradb::StreamId;
@@ -29,13 +29,15 @@ fn ev(hash: u16, stream: &str, name: &str, payload: Vec<u8>) -> NewEvent {
 #[tokio::main]
 async fn main() {
     let plen: usize = std::env::args().nth(1).and_then(|s| s.parse().ok()).unwrap_or(1000);
+    // number of events in the big transaction (>= 2: a commit record is written as well)
+    let nev: usize = std::env::args().nth(2).and_then(|s| s.parse().ok()).unwrap_or(1);
     let segment_size = 131072usize; // the smallest segment size the builder accepts
     let key = Uuid::new_v4();
     let hash = uuid_to_partition_hash(key);
     let mut bad = None;
     // the stored size of the big event is unknown up front (it depends on zstd): try every slack 0..40 between the
     // estimate and the free space; the property demands success for all of them
-    'o: for slack in [0usize, 3, 6, 9, 12, 15, 18] {
+    'o: for slack in (0..(nev * 20 + 90)).step_by(if nev == 1 { 3 } else { 11 }) {
         let dir = tempfile::tempdir().unwrap();
         let db = DatabaseBuilder::new()
             .segment_size_bytes(segment_size)
@@ -46,7 +48,7 @@ async fn main() {
             .min_sync_bytes(1)
             .open(dir.path())
             .unwrap();
-        let est_big = EVENT_HEADER_SIZE + 1 + 1 + plen; // stream "s", name "n"
+        let est_big = nev * (EVENT_HEADER_SIZE + 1 + 1 + plen) + if nev > 1 { COMMIT_SIZE } else { 0 }; // raw size; stream "s", name "n"
         // fill the live segment with small (uncompressed: < 128 bytes) single-event transactions so that
         // free space == est_big + slack
         let mut free = segment_size - SEGMENT_HEADER_SIZE;
@@ -64,7 +66,10 @@ async fn main() {
             k += 1;
         }
         if free != target_free { continue; }
-        let big = || Transaction::new(key, 0, smallvec![ev(hash, "s", "n", rnd(plen, 0x9e3779b97f4a7c15 + slack as u64))]).unwrap();
+        let big = || {
+            let evs: smallvec::SmallVec<[NewEvent; 4]> = (0..nev).map(|i| ev(hash, "s", "n", rnd(plen, 0x9e3779b97f4a7c15 + (slack * 131 + i) as u64))).collect();
+            Transaction::new(key, 0, evs).unwrap()
+        };
         let mut errs = vec![];
         for _attempt in 0..3 {
             match db.append_events(big()).await {
@@ -73,7 +78,7 @@ async fn main() {
             }
         }
         if !errs.is_empty() {
-            bad = Some(format!("segment {segment_size} B, compression on, {k} filler events leave {free} B free; an event with a {plen}-byte incompressible payload (size estimate {est_big} B, fits an empty segment) \
+            bad = Some(format!("segment {segment_size} B, compression on, {k} filler events leave {free} B free; a transaction of {nev} event(s) with {plen}-byte incompressible payloads (raw size {est_big} B, fits an empty segment) \
                                 is rejected on every one of 3 attempts: {}", errs[0]));
             break 'o;
         }
